@@ -50,6 +50,7 @@ type opOut struct {
 	ja   jaObs
 	out  hcl.Body // body produced (partial: remainder; expand; child)
 	blk  int      // child: resolved block index
+	file string   // child: file the block is defined in
 	skip string
 }
 
@@ -107,6 +108,7 @@ func applyOp(b hcl.Body, op TOp) (r opOut, panicked any) {
 		}
 		r.blk = k % len(c.Blocks)
 		r.out = c.Blocks[r.blk].Body
+		r.file = c.Blocks[r.blk].DefRange.Filename
 	default:
 		r.skip = "unknown-kind"
 	}
@@ -118,6 +120,8 @@ type tnode struct {
 	parent int // slot; -1 for the root
 	via    TOp // resolved producing operation
 	coq    int // index in the Coq table
+	// expandBody layers of this body over the blocks of a file (constant for the Body of a block)
+	depthOf func(file string) int
 }
 
 type texec struct {
@@ -201,7 +205,7 @@ func runTree(cs *CaseSpec, root hcl.Body, f *failer, input string, rep *hv.Repor
 		return nil
 	}
 	rep.Hist("stream:tree-history")
-	slots := []*tnode{{body: root, parent: -1, coq: 0}}
+	slots := []*tnode{{body: root, parent: -1, coq: 0, depthOf: func(file string) int { return layerDepth(cs, file) }}}
 	ncoq := 1
 	var coq []string
 	var done []texec
@@ -272,6 +276,7 @@ func runTree(cs *CaseSpec, root hcl.Body, f *failer, input string, rep *hv.Repor
 
 		// the Coq term
 		cn := node.coq
+		childDepth := 0
 		switch op.Kind {
 		case "partial":
 			coq = append(coq, fmt.Sprintf("TPartial %d (%s) (%s) %s", cn, coqSchema(opSchema(op)), coqObs(r1.o), coqJA(r1.ja)))
@@ -282,13 +287,31 @@ func runTree(cs *CaseSpec, root hcl.Body, f *failer, input string, rep *hv.Repor
 		case "expand":
 			coq = append(coq, fmt.Sprintf("TExpand %d", cn))
 		case "child":
-			coq = append(coq, fmt.Sprintf("TChild %d %s (%s) %d %s", cn, hv.CoqBool(op.Via != "content"), coqSchema(opSchema(op)), op.Blk, hv.CoqBool(isExpandBody(r1.out))))
+			childDepth = settleDepth(node.depthOf(r1.file), isExpandBody(r1.out), rep)
+			if childDepth >= 2 {
+				rep.Hist("tree:child-under-two-expand-layers")
+			}
+			coq = append(coq, fmt.Sprintf("TChild %d %s (%s) %d %d", cn, hv.CoqBool(op.Via != "content"), coqSchema(opSchema(op)), op.Blk, childDepth))
 		}
 
 		usedAt[on] = append(usedAt[on], len(done))
 		done = append(done, texec{idx: i, op: op, r1: r1})
 		if r1.out != nil {
-			slots = append(slots, &tnode{body: r1.out, parent: on, via: op, coq: ncoq})
+			nn := &tnode{body: r1.out, parent: on, via: op, coq: ncoq, depthOf: node.depthOf}
+			switch op.Kind {
+			case "expand":
+				pd := node.depthOf
+				nn.depthOf = func(file string) int {
+					if d := pd(file); d >= 0 {
+						return d + 1
+					}
+					return -1
+				}
+			case "child":
+				cd := childDepth
+				nn.depthOf = func(string) int { return cd }
+			}
+			slots = append(slots, nn)
 			ncoq++
 		} else {
 			slots = append(slots, nil)
